@@ -30,7 +30,7 @@ def signature(mm):
     return 'C17:' + mm.name
 
 
-def gen_cell(rng, kind, curs):
+def gen_cell(rng, kind, curs, maxinv=4):
     if rng.chance(1, 7):
         return None
     if kind == 'amount':
@@ -42,7 +42,7 @@ def gen_cell(rng, kind, curs):
         return position.Position(amount.Amount(rng.choice(NUMS), rng.choice(curs)), cost)
     if kind == 'inventory':
         inv = inventory.Inventory()
-        for _ in range(rng.range(0, 4)):
+        for _ in range(rng.range(0, maxinv)):
             cur = rng.choice(curs)
             cost = None
             if rng.chance(1, 2) and cur != 'USD':
@@ -90,12 +90,12 @@ def show_out(desc, rows):
     return '[' + names + '] ' + body
 
 
-def run_case(ctx, rng):
+def run_case(ctx, rng, pool=CURS, maxrows=7, maxinv=4):
     ncols = rng.range(1, 4)
     kinds = [rng.choice(['amount', 'position', 'inventory', 'int', 'str', 'Decimal', 'date', 'amount', 'inventory']) for _ in range(ncols)]
-    curs_per_col = [CURS[:rng.range(1, 4)] for _ in kinds]
-    nrows = rng.range(0, 7)
-    rows = [tuple(gen_cell(rng, k, cs) for k, cs in zip(kinds, curs_per_col)) for _ in range(nrows)]
+    curs_per_col = [pool[:rng.range(1, len(pool))] for _ in kinds]
+    nrows = rng.range(0, maxrows)
+    rows = [tuple(gen_cell(rng, k, cs, maxinv) for k, cs in zip(kinds, curs_per_col)) for _ in range(nrows)]
     names_in = ['c%d' % j for j in range(ncols)]
     for j in range(1, ncols):
         same = [i for i in range(j) if kinds[i] == kinds[j]]
@@ -238,6 +238,10 @@ def entry_point_layer(ctx):
 def run(ctx):
     entry_point_layer(ctx)
     rng = ctx.rng
+    # portfolios of many commodities: every one of them gets its column, however many there are
+    many = ['USD', 'EUR'] + ['C%02d' % k for k in range(30)]
+    for case in range(400 if ctx.thorough() else 40):
+        run_case(ctx, rng, pool=many, maxrows=30, maxinv=12)
     for case in range(100000 if ctx.thorough() else 1200):
         if ctx.stop():
             return
